@@ -411,7 +411,9 @@ def probe_reference(spec):
                 if col in o['out']['dispatch']:
                     disp[(a['name'], n)] = o['out']['dispatch'][col]
         try:
-            o['ref']['eao_dispatch_in_reference'] = ref.check_dispatch(spec, disp)
+            st2, v2 = ref.check_dispatch(spec, disp)
+            o['ref']['eao_dispatch_in_reference'] = st2
+            o['ref']['value_of_eao_dispatch'] = v2
         except Exception as e:
             o['ref']['eao_dispatch_in_reference'] = 'error: ' + repr(e)[:200]
     return o
